@@ -7,6 +7,9 @@ import (
 	"net/url"
 	"os"
 	"path/filepath"
+	"runtime"
+	"sync"
+	"sync/atomic"
 	"time"
 
 	"github.com/cockroachdb/pebble/vfs"
@@ -44,8 +47,10 @@ func routeR6(j job, ref *leader, worker int, st *stats) *viol {
 	defer os.RemoveAll(base)
 	dir := regFS("r6", vfs.NewMem())
 	defer fsReg.Delete(dir)
-	kvf := oxh.NewDirFactory(dir)
-	defer kvf.Close()
+	pf := oxh.NewDirFactory(dir)
+	defer pf.Close()
+	trk := &iterTracker{}
+	kvf := &trkFactory{Factory: pf, t: trk}
 	walf := wal.NewWalFactory(&wal.FactoryOptions{BaseWalDir: base, Retention: time.Hour, SegmentSize: 256 * 1024, SyncData: false})
 	defer walf.Close()
 	cfg := server.Config{NotificationsRetentionTime: retention}
@@ -66,11 +71,12 @@ func routeR6(j job, ref *leader, worker int, st *stats) *viol {
 	}
 	if err := elect(); err != nil {
 		if lc != nil {
+			trk.quiesce()
 			_ = lc.Close()
 		}
 		return &viol{"route-error:" + route, "election: " + err.Error()}
 	}
-	defer func() { _ = lc.Close() }()
+	defer func() { trk.quiesce(); _ = lc.Close() }()
 	ctx := context.Background()
 	var sessions []int64
 	failed := map[int64]bool{}
@@ -105,6 +111,7 @@ func routeR6(j job, ref *leader, worker int, st *stats) *viol {
 	restartAt := len(j.hist) / 2
 	for k, op := range j.hist {
 		if k == restartAt && k > 0 {
+			trk.quiesce()
 			if err := lc.Close(); err != nil {
 				return &viol{"route-error:" + route, "close: " + err.Error()}
 			}
@@ -200,3 +207,101 @@ func routeR6(j job, ref *leader, worker int, st *stats) *viol {
 }
 
 var _ = kv.NoOpCallback
+
+// ---- open iterator tracking -------------------------------------------------------------
+// leaderController.list closes its iterator in its goroutine after it has signalled completion;
+// closing the controller right after BecomeLeader (sessionManager.Initialize -> ListBlock) or after
+// CloseSession can close Pebble underneath that iterator, which panics inside Pebble. R6 waits for
+// every iterator handed out to be closed before it closes a controller (see NOTES.md).
+
+type iterTracker struct{ open atomic.Int64 }
+
+func (t *iterTracker) quiesce() {
+	deadline := time.Now().Add(10 * time.Second)
+	for t.open.Load() != 0 && time.Now().Before(deadline) {
+		runtime.Gosched()
+		time.Sleep(20 * time.Microsecond)
+	}
+}
+
+type trkFactory struct {
+	kv.Factory
+	t *iterTracker
+}
+
+func (f *trkFactory) NewKV(namespace string, shardId int64) (kv.KV, error) {
+	k, err := f.Factory.NewKV(namespace, shardId)
+	if err != nil {
+		return nil, err
+	}
+	return &trkKV{KV: k, t: f.t}, nil
+}
+
+type trkKV struct {
+	kv.KV
+	t *iterTracker
+}
+
+type trkCloser struct {
+	t    *iterTracker
+	once sync.Once
+}
+
+func (c *trkCloser) done() { c.once.Do(func() { c.t.open.Add(-1) }) }
+
+type trkKeyIt struct {
+	kv.KeyIterator
+	c trkCloser
+}
+
+func (i *trkKeyIt) Close() error { err := i.KeyIterator.Close(); i.c.done(); return err }
+
+type trkKVIt struct {
+	kv.KeyValueIterator
+	c trkCloser
+}
+
+func (i *trkKVIt) Close() error { err := i.KeyValueIterator.Close(); i.c.done(); return err }
+
+type trkRevIt struct {
+	kv.ReverseKeyIterator
+	c trkCloser
+}
+
+func (i *trkRevIt) Close() error { err := i.ReverseKeyIterator.Close(); i.c.done(); return err }
+
+func (k *trkKV) KeyRangeScan(lo, hi string) (kv.KeyIterator, error) {
+	it, err := k.KV.KeyRangeScan(lo, hi)
+	if err != nil {
+		return nil, err
+	}
+	k.t.open.Add(1)
+	return &trkKeyIt{KeyIterator: it, c: trkCloser{t: k.t}}, nil
+}
+
+func (k *trkKV) KeyIterator() (kv.KeyIterator, error) {
+	it, err := k.KV.KeyIterator()
+	if err != nil {
+		return nil, err
+	}
+	k.t.open.Add(1)
+	return &trkKeyIt{KeyIterator: it, c: trkCloser{t: k.t}}, nil
+}
+
+func (k *trkKV) KeyRangeScanReverse(lo, hi string) (kv.ReverseKeyIterator, error) {
+	it, err := k.KV.KeyRangeScanReverse(lo, hi)
+	if err != nil {
+		return nil, err
+	}
+	k.t.open.Add(1)
+	return &trkRevIt{ReverseKeyIterator: it, c: trkCloser{t: k.t}}, nil
+}
+
+func (k *trkKV) RangeScan(lo, hi string) (kv.KeyValueIterator, error) {
+	it, err := k.KV.RangeScan(lo, hi)
+	if err != nil {
+		return nil, err
+	}
+	k.t.open.Add(1)
+	return &trkKVIt{KeyValueIterator: it, c: trkCloser{t: k.t}}, nil
+}
